@@ -35,7 +35,6 @@ pub mod address {
     use std::net::SocketAddr;
     use std::net::SocketAddrV4;
     use std::net::SocketAddrV6;
-    use std::string::FromUtf8Error;
 
     use tokio_util::bytes::Buf;
     use tokio_util::bytes::BufMut;
@@ -73,16 +72,21 @@ pub mod address {
         Ok(())
     }
 
-    pub fn read_address_port(buf: &mut Bytes) -> Result<Address, FromUtf8Error> {
+    pub fn read_address_port(buf: &mut Bytes) -> anyhow::Result<Address> {
+        if buf.remaining() < 3 {
+            anyhow::bail!("address is cut short");
+        }
         let port = buf.get_u16();
-        let addr_type = AddressType::new(buf.get_u8());
-        match addr_type {
-            AddressType::Ipv4 => Ok(Address::from(SocketAddr::V4(SocketAddrV4::new(Ipv4Addr::from(buf.get_u32()), port)))),
-            AddressType::Domain => {
-                let length = buf.get_u8() as usize;
-                Ok(Address::Domain(String::from_utf8(buf.copy_to_bytes(length).to_vec())?, port))
-            }
-            AddressType::Ipv6 => Ok(Address::from(SocketAddr::V6(SocketAddrV6::new(Ipv6Addr::from(buf.get_u128()), port, 0, 0)))),
+        let addr_type = buf.get_u8();
+        if addr_type == AddressType::Ipv4 as u8 && buf.remaining() >= 4 {
+            Ok(Address::from(SocketAddr::V4(SocketAddrV4::new(Ipv4Addr::from(buf.get_u32()), port))))
+        } else if addr_type == AddressType::Domain as u8 && buf.has_remaining() && buf.remaining() > buf[0] as usize {
+            let length = buf.get_u8() as usize;
+            Ok(Address::Domain(String::from_utf8(buf.copy_to_bytes(length).to_vec())?, port))
+        } else if addr_type == AddressType::Ipv6 as u8 && buf.remaining() >= 16 {
+            Ok(Address::from(SocketAddr::V6(SocketAddrV6::new(Ipv6Addr::from(buf.get_u128()), port, 0, 0))))
+        } else {
+            anyhow::bail!("unsupported address type {} or address cut short", addr_type)
         }
     }
 }
